@@ -176,28 +176,31 @@ Definition splitlines (s : str) : list str :=
          end
   end.
 
-(* position-independent search used by the greedy "(type):" group: split r at the LAST occurrence of "):"
-   with a non-empty part before it.  last_parencolon r = Some (before, after)  <->  r = before ++ "):" ++ after,
-   before <> [], and "):" does not occur later. *)
-Fixpoint last_parencolon (s : str) : option (str * str) :=
+(* does s start with "):" *)
+Definition starts_pc (s : str) : bool :=
   match s with
-  | [] => None
-  | c :: r =>
-      match last_parencolon r with
-      | Some (a, b) => Some (c :: a, b)
-      | None => match r with
-                | ")" :: ":" :: b => Some ([c], b)
-                | _ => None
-                end
-      end
+  | x :: y :: _ => ceq x ")" && ceq y ":"
+  | _ => false
   end.
 
 (* does "):" occur in s *)
 Fixpoint has_parencolon (s : str) : bool :=
   match s with
-  | ")" :: ((":" :: _) as r) => true
-  | _ :: r => has_parencolon r
   | [] => false
+  | _ :: r => starts_pc s || has_parencolon r
+  end.
+
+(* the non-greedy "(type):" group: split r at the FIRST occurrence of "):" that leaves a non-empty part before it.
+   first_parencolon r = Some (before, after)  ->  r = before ++ "):" ++ after, before <> [] *)
+Fixpoint first_parencolon (s : str) : option (str * str) :=
+  match s with
+  | [] => None
+  | c :: r =>
+      if starts_pc r then Some ([c], skipn 2 r)
+      else match first_parencolon r with
+           | Some (a, b) => Some (c :: a, b)
+           | None => None
+           end
   end.
 
 (* string literals *)
